@@ -8,7 +8,7 @@ RULE = ("Hypothesis draws RunSpecs with the bound classes 'exactly 0', tiny widt
         "the C01 membership predicate to EVERY argument it receives (in worker processes it raises, so the finding "
         "reaches the parent) and records kind + the innermost algorithm function that asked for the evaluation. "
         "Non-trivial = run with >= 100 objective calls of which at least one argument lies exactly on a bound; "
-        "distinct = SHA-256 of the spec.")
+        "distinct = SHA-256 of the spec. About 15 % of the cases make the judged run on an optimizer instance that has already been used for an optimize() call on another task (reused instance).")
 ASSUMPTIONS = ["membership predicate harness/oracles.py:member", "key = (optimizer, kind, calling algorithm function)",
                "a run that raises for another reason still has its recorded calls judged"]
 BUDGET = {"quick": 25, "thorough": 400}
